@@ -168,6 +168,13 @@ def standin(report, script, args, label, bound, timeout=600, env=None):
     e['PYTHONHASHSEED'] = e.get('PYTHONHASHSEED', '0')
     if env:
         e.update(env)
+    scale = os.environ.get('VF_STANDIN_SCALE')
+    if scale:
+        # maintenance runs over many trees (tools/seedrun.py harmless): the case counts of the bounded drivers are scaled down; the
+        # obligations - where a behaviour-preserving rewrite could raise a false alarm - are not affected.  Never set by MANIFEST commands.
+        args = [max(60, int(a * float(scale))) if isinstance(a, int) and not isinstance(a, bool) and a >= 200 and i > 0
+                and not (i == 1 and len(args) > 2 and isinstance(args[2], int) and args[0] == 'run' and a == report.seed) else a
+                for i, a in enumerate(args)]
     t0 = time.time()
     cmd = [VENV_PY, os.path.join(VERIF, 'standin', script)] + [str(a) for a in args]
     try:
@@ -298,6 +305,7 @@ def finalise(report, level, level_checker_cmd):
             functions_under_contract=report.functions,
             by_backend=report.by_solver, solver_seconds=round(report.solver_seconds, 2),
             by_kind=_by_kind(report.obligations),
+            modules_read=sorted(core._modules),
             callee_contracts_relied_on_but_not_verified_in_this_check=sorted(
                 report.used_contracts - {f['name'] for f in report.functions}),
             helpers_inlined=sorted(report.inlined),
